@@ -2,6 +2,7 @@
    1 < phi, Euler's theorem for N as an explicit premise (true for N = p q; primality of generated p, q is GMP's), b, c
    coprime to N. *)
 From ZK Require Import Cl ClArith ClSig.
+From ZK Require Import ClGroup ClSpok ClDisclose.
 
 (* every signature sign_multiattr returns -- any number of attributes in [0, 2^lm), any bases coprime to N, any draws --
    verifies *)
@@ -90,3 +91,27 @@ Check (C13_shift_forgery_accepted_old :
   verify_multiattr_old f7_suite {| s_e := s_e sg; s_s := s_s sg; s_v := ((s_v sg * nth 0 bases 0) mod pk_N pk)%Z |} pk bases [(m + s_e sg)%Z] = Ok true /\
   verify_multiattr f7_suite {| s_e := s_e sg; s_s := s_s sg; s_v := ((s_v sg * nth 0 bases 0) mod pk_N pk)%Z |} pk bases [(m + s_e sg)%Z] = Ok false).
 Print Assumptions C13_shift_forgery_accepted_old.
+
+(* selective disclosure: for every list of hidden positions the signature verifies on the disclosed (bases', msgs') *)
+Theorem C13_disclose_verify_complete :
+  forall CS n, (0 < n)%Z -> forall sg pk bases msgs U,
+  pk_N pk = n -> (1 <= lm CS)%Z -> (0 <= pk_c pk)%Z ->
+  length msgs = length bases ->
+  Forall (fun j => (N.to_nat j < length msgs)%nat) U ->
+  verify_multiattr CS sg pk bases msgs = Ok true ->
+  exists msgs' bases', disclose_selectively msgs bases pk U = Ok (msgs', bases') /\
+    length msgs' = length msgs /\
+    (forall j, In j U -> nth (N.to_nat j) msgs' 0%Z = 1%Z) /\
+    verify_multiattr CS sg pk bases' msgs' = Ok true.
+Proof. exact disclose_verify_complete. Qed.
+Check (C13_disclose_verify_complete :
+  forall CS n, (0 < n)%Z -> forall sg pk bases msgs U,
+  pk_N pk = n -> (1 <= lm CS)%Z -> (0 <= pk_c pk)%Z ->
+  length msgs = length bases ->
+  Forall (fun j => (N.to_nat j < length msgs)%nat) U ->
+  verify_multiattr CS sg pk bases msgs = Ok true ->
+  exists msgs' bases', disclose_selectively msgs bases pk U = Ok (msgs', bases') /\
+    length msgs' = length msgs /\
+    (forall j, In j U -> nth (N.to_nat j) msgs' 0%Z = 1%Z) /\
+    verify_multiattr CS sg pk bases' msgs' = Ok true).
+Print Assumptions C13_disclose_verify_complete.
